@@ -654,6 +654,21 @@ func (se *SpecEnv) call(e *SCall) SVal {
 			return se.fail("typeis: unknown type %s", s.V)
 		}
 		return SVal{T: eq(app(SInt, "itag", x), intLit(int64(ex.te.tag(t))))}
+	case "ptr":
+		// ptr(q, "pkg.Type"): a Ref-sorted value (typically a quantified variable) read as *Type
+		x := se.value(se.eval(e.Args[0]))
+		s, ok := e.Args[1].(*SStrLit)
+		if !ok || x.Sort != SRef {
+			return se.fail("ptr needs a Ref value and a string literal type")
+		}
+		t := ex.g.lookupType(s.V)
+		if t == nil {
+			return se.fail("ptr: unknown type %s", s.V)
+		}
+		if _, isPtr := t.Underlying().(*types.Pointer); !isPtr {
+			t = types.NewPointer(t)
+		}
+		return SVal{T: x, Ty: t}
 	case "unbox":
 		// unbox(x, "pkg.Type"): payload of an interface value holding Type
 		x := se.value(se.eval(e.Args[0]))
